@@ -114,6 +114,7 @@ fn find_start_marker(
     };
 
     let bytes = &a.as_bytes()[offset..];
+    let max_len = ac.max_pattern_len();
     let mut state = aho_corasick::automaton::OverlappingState::start();
     let mut longest_match = None::<(usize, StartMarker, usize, Whitespace)>;
 
@@ -123,6 +124,16 @@ fn find_start_marker(
             None => break,
             Some(m) => m,
         };
+
+        // overlapping matches arrive ordered by their end.  Once one ends behind
+        // the longest delimiter that could begin at the best start found so far,
+        // no later match can begin there (or further left) any more.
+        if longest_match
+            .as_ref()
+            .is_some_and(|x| m.end() > x.0 + max_len)
+        {
+            break;
+        }
 
         let marker = syntax_config.pattern_to_marker(m.pattern());
         let ws = if matches!(marker, StartMarker::LineStatement) {
@@ -144,8 +155,9 @@ fn find_start_marker(
         };
         let new_match = (m.start(), marker, m.len() + ws.len(), ws);
 
+        // leftmost wins; at the same start the later (longer) match wins
         if longest_match.as_ref().is_some_and(|x| new_match.0 > x.0) {
-            break;
+            continue;
         }
         longest_match = Some(new_match);
     }
